@@ -677,16 +677,68 @@ fn ks_for(n: u64, all_upto: u64, sample: u64, rng: &mut vh::rng::SplitMix64) -> 
     v
 }
 
+/// The wrappers themselves must be transparent (Chunky) / fire exactly as planned (Faulty) before anything is judged.
+fn wrappers_selfcheck() -> Result<(), String> {
+    use vh::streams::Counting;
+    let data = vh::rng::SplitMix64::new(7).bytes(5000);
+    for k in [1usize, 2, 3, 7, 64] {
+        let mut c = Chunky::new(Cursor::new(data.clone()), k, 42);
+        let mut out = vec![];
+        c.read_to_end(&mut out).map_err(|e| e.to_string())?;
+        if out != data {
+            return Err(format!("Chunky({k}) read changed the data"));
+        }
+        c.seek(SeekFrom::Start(100)).map_err(|e| e.to_string())?;
+        let mut b = [0u8; 50];
+        c.read_exact(&mut b).map_err(|e| e.to_string())?;
+        if b[..] != data[100..150] {
+            return Err(format!("Chunky({k}) seek+read_exact wrong"));
+        }
+        let mut w = Chunky::new(Cursor::new(Vec::new()), k, 43);
+        w.write_all(&data).map_err(|e| e.to_string())?;
+        if w.into_inner().into_inner() != data {
+            return Err(format!("Chunky({k}) write changed the data"));
+        }
+    }
+    let mut f = Faulty::new(Cursor::new(data.clone()), FaultPlan::nth(2, FaultKind::Other));
+    let st = f.stats();
+    let mut b = [0u8; 10];
+    let r0 = f.read(&mut b).is_ok();
+    let r1 = f.seek(SeekFrom::Start(0)).is_ok();
+    let r2 = f.read(&mut b).is_err();
+    let r3 = f.read(&mut b).map(|n| n == 10 && b[..] == data[..10]).unwrap_or(false);
+    if !(r0 && r1 && r2 && r3 && st.ops() == 4 && st.fired() == 1 && st.fired_on() == Some(OpKind::Read)) {
+        return Err("Faulty one-shot plan misbehaves".into());
+    }
+    let mut f = Faulty::new(Cursor::new(data.clone()), FaultPlan::nth(1, FaultKind::ShortZero).sticky());
+    let ok = f.read(&mut b).map(|n| n == 10).unwrap_or(false) && matches!(f.read(&mut b), Ok(0)) && f.seek(SeekFrom::Start(0)).is_ok() && matches!(f.read(&mut b), Ok(0));
+    if !ok {
+        return Err("Faulty sticky Ok(0) plan misbehaves".into());
+    }
+    let mut c = Counting::new(Cursor::new(data));
+    let log = c.log();
+    let _ = c.read(&mut b);
+    let _ = c.seek(SeekFrom::End(-1));
+    if log.len() != 2 || log.trace()[1].result != Ok(4999) {
+        return Err("Counting trace wrong".into());
+    }
+    Ok(())
+}
+
 fn main() {
     vh::quiet_panics();
     let run = Run::from_args("C35", "fault_enumeration");
     let selftest = std::env::var("VERIF_SELFTEST").ok().as_deref() == Some("1");
-    run.set_rule("operations = {sign, read (asset signed by the harness + repository fixtures), add_ingredient_from_stream, placeholder->update_hash_from_stream->sign_embeddable} over the writable fixture formats, always with the correct format hint. (a) every operation with its source / destination / both streams wrapped in Chunky with max piece 1,2,3,7 and a seeded random maximum; (b) a Counting/Faulty dry run gives the fault-free number N of I/O calls (read+write+seek+flush) on the wrapped stream; cases = every k<N up to a bound, then one k per stratum of the rest plus the last 4 calls (quick: k<300 + 24 strata for assets <= 300 KB, k<40 + 12 strata for larger ones; thorough: k<4000 + 400 strata, larger assets k<1000 + 200 strata) x {Other, UnexpectedEof, Interrupted, WriteZero, Ok(0), sticky Other, sticky Ok(0)} on the source, the destination or the ingredient / hashed stream. Non-trivial = the fault fired at call index >= 2 (beyond the sniffing read); chunk cases with pieces <= 3 bytes.");
+    run.set_rule("operations = {sign, read (asset signed by the harness + repository fixtures), add_ingredient_from_stream, placeholder->update_hash_from_stream->sign_embeddable} over the writable fixture formats, always with the correct format hint. (a) every operation with its source / destination / both streams wrapped in Chunky with max piece 1,2,3,7 and a seeded random maximum; (b) a Counting/Faulty dry run gives the fault-free number N of I/O calls (read+write+seek+flush) on the wrapped stream; cases = every k<N up to a bound, then one k per stratum of the rest plus the last 4 calls (quick: k<300 + 24 strata for assets <= 300 KB, k<40 + 12 strata for larger ones; thorough: k<4000 + 400 strata, larger assets k<1000 + 200 strata; for larger assets additionally the one-shot Other error at every k<400 of sign sources in quick / every k<12000 of every stream in thorough) x {Other, UnexpectedEof, Interrupted, WriteZero, Ok(0), sticky Other, sticky Ok(0)} on the source, the destination or the ingredient / hashed stream. Non-trivial = the fault fired at call index >= 2 (beyond the sniffing read); chunk cases with pieces <= 3 bytes.");
     run.assume("equality with the fault-free result is judged on (validation state + all status codes of the read-back with a plain cursor, cross-run normalised report, output size, output bytes after the SDK's own manifest removal); reads: state + codes + same-bytes report");
     run.assume("a one-shot or sticky Ok(0) from read is an end-of-file, not an error: a differing Ok result is a failure only for reads/imports that are Valid/Trusted; signing the truncated view is recorded, not judged");
     run.assume("the number and order of I/O calls of an operation is deterministic (a planned call that is not reached is counted fault_not_fired and not judged)");
 
     let quick = run.quick();
+    if let Err(e) = wrappers_selfcheck() {
+        run.inconclusive(format!("stream wrappers broken: {e}"));
+        run.finish();
+    }
     // ---- operations -----------------------------------------------------------------------------------
     let fixtures: Vec<(&str, &str, &str)> = sdk::writable_fixtures()
         .into_iter()
@@ -768,10 +820,13 @@ fn main() {
             }
         }
     }
+    if selftest {
+        ccases.retain(|c| asset(&c.op.file).len() <= 120_000);
+    }
     ccases.sort_by_key(|c| (asset(&c.op.file).len() / c.max_piece.clamp(1, 16) as usize, c.max_piece));
     run.extra("chunk_cases", json!(ccases.len()));
     if std::env::var("VERIF_C35_PROBE").is_err() {
-        run.drive_enum_par("chunked_streams", ccases, 8, |c| judge_chunk(&run, c, selftest));
+        run.drive_enum_par("chunked_streams", ccases, run.scale(8, 16), |c| judge_chunk(&run, c, selftest));
     }
 
     // ---- (b) faults -----------------------------------------------------------------------------------
@@ -816,6 +871,7 @@ fn main() {
         } else {
             run.count("ops_enumerated_stratified");
         }
+        let full: std::collections::BTreeSet<u64> = ks.iter().copied().collect();
         for k in ks {
             for kp in &kinds {
                 let mut plan = *kp;
@@ -823,10 +879,29 @@ fn main() {
                 fcases.push(FaultCase { op: op.clone(), target: t.to_string(), plan });
             }
         }
+        // larger assets: the plain one-shot error (the kind that exposes swallowed errors) at every further k
+        // up to a second bound, so that the findings do not depend on where the seeded strata fall
+        let other_upto = if !quick {
+            12_000u64
+        } else if op.kind == "sign" && *t == "source" {
+            400 // quick: only where the format handlers parse the source
+        } else {
+            0
+        };
+        for k in 0..(*n).min(other_upto) {
+            if !full.contains(&k) {
+                fcases.push(FaultCase { op: op.clone(), target: t.to_string(), plan: FaultPlan::nth(k, FaultKind::Other) });
+            }
+        }
+    }
+    if selftest {
+        // the lying adapter must lie only once (a permanently lying stream can make any consumer loop forever),
+        // and small assets are enough to show that swallowed errors are caught
+        fcases.retain(|c| !c.plan.sticky && asset(&c.op.file).len() <= 120_000);
     }
     fcases.sort_by_key(|c| c.plan.at);
     run.extra("fault_cases", json!(fcases.len()));
-    run.drive_enum_par("faulty_streams", fcases, 8, |c| judge_fault(&run, c, selftest));
+    run.drive_enum_par("faulty_streams", fcases, run.scale(8, 16), |c| judge_fault(&run, c, selftest));
     run.set_exhaustive(false);
     run.finish();
 }
